@@ -27,29 +27,7 @@ func runC18(c *Ctx) {
 		return
 	}
 	// ---- R18.1
-	analysed := map[*ssa.Function]bool{}
-	for _, x := range []string{"Bytes", "Runes", "Cells"} {
-		ll := c.Func("length", "LongestLine"+x)
-		m := c.Func("length", "String"+x)
-		if ll == nil || m == nil {
-			continue
-		}
-		// delegation to a shared helper that is handed this function's own measure
-		if h, k := delegatesWithMeasure(ll, m); h != nil {
-			r.Check("R18.1", FuncName(ll), "delegates to a shared helper, handing it String"+x+" as the measure", ll.Pos(), true, "")
-			if !analysed[h] {
-				analysed[h] = true
-				par := h.Params[k]
-				c18LongestLine(c, h, lines, "the measure it is given", func(call *ssa.Call) bool { return call.Call.Value == ssa.Value(par) }, func(call *ssa.Call) bool { return false })
-			}
-			continue
-		}
-		c18LongestLine(c, ll, lines, "String"+x, func(call *ssa.Call) bool { return call.Call.StaticCallee() == m },
-			func(call *ssa.Call) bool {
-				f := call.Call.StaticCallee()
-				return f != nil && f != m && funcPkgPath(f) == pkgPath("length") && strings.HasPrefix(f.Name(), "String")
-			})
-	}
+	c18LongestAll(c, lines, []string{"Bytes", "Runes", "Cells"})
 
 	// ---- R18.2
 	nsplit := 0
@@ -445,4 +423,32 @@ func c18LongestLine(c *Ctx, ll, lines *ssa.Function, measureName string, isMeasu
 	})
 	_ = single
 	r.Check("R18.1", name, "the maximum is taken over every line", ll.Pos(), okMax, whyMax)
+}
+
+// c18LongestAll applies the longest-line rule to length.LongestLine<X> for each X given.
+func c18LongestAll(c *Ctx, lines *ssa.Function, kinds []string) {
+	r := c.R
+	analysed := map[*ssa.Function]bool{}
+	for _, x := range kinds {
+		ll := c.Func("length", "LongestLine"+x)
+		m := c.Func("length", "String"+x)
+		if ll == nil || m == nil {
+			continue
+		}
+		// delegation to a shared helper that is handed this function's own measure
+		if h, k := delegatesWithMeasure(ll, m); h != nil {
+			r.Check("R18.1", FuncName(ll), "delegates to a shared helper, handing it String"+x+" as the measure", ll.Pos(), true, "")
+			if !analysed[h] {
+				analysed[h] = true
+				par := h.Params[k]
+				c18LongestLine(c, h, lines, "the measure it is given", func(call *ssa.Call) bool { return call.Call.Value == ssa.Value(par) }, func(call *ssa.Call) bool { return false })
+			}
+			continue
+		}
+		c18LongestLine(c, ll, lines, "String"+x, func(call *ssa.Call) bool { return call.Call.StaticCallee() == m },
+			func(call *ssa.Call) bool {
+				f := call.Call.StaticCallee()
+				return f != nil && f != m && funcPkgPath(f) == pkgPath("length") && strings.HasPrefix(f.Name(), "String")
+			})
+	}
 }
